@@ -68,8 +68,8 @@ def AttOut (c : Conc.Cfg) (kind : CtxKind) (cfg : BatchCfg) (i : Nat) (cz : Bool
     (a : List Ev × Ctx × AttemptRes) : Prop :=
   (a.2.1 = .live ∨ (a.2.1 = .done kind ∧ cz = true)) ∧
   match a.2.2 with
-  | .ok x => Origin c cz (h0 ++ a.1.flatMap obsOf) i (slotOfVal x)
-  | .cancelled kd => kd = kind ∧ Origin c cz (h0 ++ a.1.flatMap obsOf) i (newErrorResult (.ctx kind))
+  | .ok x => LoopEnd c cz (h0 ++ a.1.flatMap obsOf) i (slotOfVal x) false
+  | .cancelled kd => kd = kind ∧ LoopEnd c cz (h0 ++ a.1.flatMap obsOf) i (newErrorResult (.ctx kind)) true
   | .failed e => PcOk c cz (h0 ++ a.1.flatMap obsOf) i (.loopTop cfg.budget (some e))
 
 theorem attempts_pcOk (ag : Agrees c kind cfg scr) (i : Nat) (arg : Val) (cz : Bool)
@@ -152,13 +152,20 @@ theorem attempts_pcOk (ag : Agrees c kind cfg scr) (i : Nat) (arg : Val) (cz : B
       rw [ag.kind] at this
       simpa [PcOk] using this
 
+/-- `runExecWithRetries` returned an error (the sequential model's own notion of a FAILED item) -/
+def resFailed : ItemRes → Bool
+  | .slot _ => false
+  | .error _ => true
+
 /-- **Simulation of one item.** Processing item `i` sequentially from a live context (`runItem`) leaves, in the
-    translated event list, exactly the history the LTS would have for that item, and the slot it produces has
-    the provenance `Origin`. With `cz = false` this needs the item's script to be cancellation-free. -/
-theorem runItem_origin (ag : Agrees c kind cfg scr) (i : Nat) (item : Result) (cz : Bool)
+    translated event list, exactly the history the LTS would have for that item; the slot it produces has
+    the provenance the LTS gives it, and the sequential model's "returned an error" is exactly the LTS's `failed`
+    flag (`LoopEnd`). With `cz = false` this needs the item's script to be cancellation-free. -/
+theorem runItem_loopEnd (ag : Agrees c kind cfg scr) (i : Nat) (item : Result) (cz : Bool)
     (hz : cz = true ∨ Quiet (scr.item i)) (h0 : List Obs) (hf : Fresh h0 i) :
-    Origin c cz (h0 ++ (runItem kind n v cfg i item (scr.item i) .live).1.flatMap obsOf) i
-      (slotOfRes (runItem kind n v cfg i item (scr.item i) .live).2.2) := by
+    LoopEnd c cz (h0 ++ (runItem kind n v cfg i item (scr.item i) .live).1.flatMap obsOf) i
+      (slotOfRes (runItem kind n v cfg i item (scr.item i) .live).2.2)
+      (resFailed (runItem kind n v cfg i item (scr.item i) .live).2.2) := by
   have hp0 : PcOk c cz h0 i (.loopTop 0 none) := by
     have := pcOk_micro (s := st false) (Micro.ctxPass (c := c) (s := st false) (i := i) rfl) (cz := cz) (h := h0)
       (show PcOk c cz h0 i .ctxCheck from hf) (by simp [st])
@@ -172,10 +179,10 @@ theorem runItem_origin (ag : Agrees c kind cfg scr) (i : Nat) (item : Result) (c
   obtain ⟨hctx, hres⟩ := ha
   simp only at hctx hres
   cases ares with
-  | ok x => simpa [fallbackPhase] using hres
+  | ok x => simpa [fallbackPhase, resFailed] using hres
   | cancelled kd =>
     obtain ⟨rfl, hres⟩ := hres
-    simpa [fallbackPhase] using hres
+    simpa [fallbackPhase, resFailed] using hres
   | failed e =>
     have hkb : ¬ cfg.budget < c.budget := by rw [ag.budget]; omega
     simp only [fallbackPhase]
@@ -183,23 +190,30 @@ theorem runItem_origin (ag : Agrees c kind cfg scr) (i : Nat) (item : Result) (c
     | absent =>
       have := pcOk_micro (s := st false)
         (Micro.noFb (c := c) (s := st false) (i := i) cfg.budget e hkb (by rw [ag.fb, hfb]; simp)) hres (by simp [st])
-      simpa [PcOk] using this
+      simpa [PcOk, resFailed] using this
     | passThrough =>
       have := pcOk_micro (s := st false)
         (Micro.noFb (c := c) (s := st false) (i := i) cfg.budget e hkb (by rw [ag.fb, hfb]; simp)) hres (by simp [st])
-      simpa [PcOk] using this
+      simpa [PcOk, resFailed] using this
     | custom =>
       cases hr : (scr.item i).fb.res with
       | ok x =>
         have := pcOk_micro (s := st false)
           (Micro.fbOk (c := c) (s := st false) (i := i) cfg.budget e x hkb (by rw [ag.fb, hfb]) (by rw [ag.fbOut]; exact hr))
           hres (by simp [st])
-        simpa [PcOk, obsOf, List.flatMap_append] using this
+        simpa [PcOk, obsOf, List.flatMap_append, resFailed] using this
       | error e' =>
         have := pcOk_micro (s := st false)
           (Micro.fbErr (c := c) (s := st false) (i := i) cfg.budget e e' hkb (by rw [ag.fb, hfb]) (by rw [ag.fbOut]; exact hr))
           hres (by simp [st])
-        simpa [PcOk, obsOf, List.flatMap_append] using this
+        simpa [PcOk, obsOf, List.flatMap_append, resFailed] using this
+
+/-- … in particular the slot has the provenance `Origin` -/
+theorem runItem_origin (ag : Agrees c kind cfg scr) (i : Nat) (item : Result) (cz : Bool)
+    (hz : cz = true ∨ Quiet (scr.item i)) (h0 : List Obs) (hf : Fresh h0 i) :
+    Origin c cz (h0 ++ (runItem kind n v cfg i item (scr.item i) .live).1.flatMap obsOf) i
+      (slotOfRes (runItem kind n v cfg i item (scr.item i) .live).2.2) :=
+  (runItem_loopEnd n v ag i item cz hz h0 hf).origin
 
 end item
 
@@ -813,11 +827,28 @@ theorem origin_dones_lt {c : Conc.Cfg} {cz : Bool} {h : List Obs} {i : Nat} {r :
   | fbErr e' hpos h1 h2 ha hfb hx hf => rw [h2] at hk; simpa using hk
   | lastError e hpos h1 h2 ha hfb he hf => rw [h2] at hk; simpa using hk
 
+/-- a fallback call in the history of a finished item means the node has a custom fallback -/
+theorem origin_fb_custom {c : Conc.Cfg} {cz : Bool} {h : List Obs} {i : Nat} {r : Result} (ho : Origin c cz h i r)
+    (hf : 0 < itemFbs h i) : c.fb = .custom := by
+  cases ho with
+  | stopped _ hfr => rw [hfr.2.2] at hf; omega
+  | cancelledBefore _ hfr => rw [hfr.2.2] at hf; omega
+  | ctxCut k' z hk' h1 h2 ha hf0 => omega
+  | noExec _ hfr => rw [hfr.2.2] at hf; omega
+  | ok k' x hk' h1 h2 ha hx hf0 => omega
+  | fbOk x hpos h1 h2 ha hfb hx hf1 => exact hfb
+  | fbErr e' hpos h1 h2 ha hfb hx hf1 => exact hfb
+  | lastError e hpos h1 h2 ha hfb he hf0 => omega
+
+theorem itemFbs_pos_of_mem {h : List Obs} {i : Nat} (hm : Obs.fb i ∈ h) : 0 < itemFbs h i := by
+  simp only [itemFbs, List.length_pos_iff_exists_mem, List.mem_filter]
+  exact ⟨_, hm, by simp⟩
+
 /-- **Bridge, C07, gated family.** In the state right after post, `Spec.c07` holds of the model's observation,
-    for every schedule (fallback callbacks that do not cancel the context — `Spec.cancelFree` does not look at
-    them). -/
+    for every schedule and every script (`Spec.cancelFree` inspects exec AND fallback scripts, so no side
+    condition on the scripts remains). -/
 theorem c07_viewOf {c : Conc.Cfg} {s s' : BState} (items : List Val) (hr : Reachable c s)
-    (hfbc : ∀ i, (c.fbOut i).cancels = false) (hw : apply c s .waitRet = some s') : c07 c (viewOf s' items) = true := by
+    (hw : apply c s .waitRet = some s') : c07 c (viewOf s' items) = true := by
   unfold c07
   split
   · rfl
@@ -839,8 +870,22 @@ theorem c07_viewOf {c : Conc.Cfg} {s s' : BState} (items : List Val) (hr : Reach
         exfalso
         obtain ⟨e, he, hc⟩ := hC.flag.1 hcz
         simp only [cancelFree, Bool.and_eq_true, Bool.not_eq_true', List.any_eq_false, List.all_eq_true,
-          List.mem_range, beq_iff_eq] at hcf
-        obtain ⟨hcf1, hcf2⟩ := hcf
+          List.mem_range, beq_iff_eq, Bool.or_eq_true, bne_iff_ne, ne_eq] at hcf
+        obtain ⟨⟨hcf1, hcf2⟩, hcf3⟩ := hcf
+        have hin : ∀ i, (itemDones (hist { s with posted := true, log := Obs.post :: s.log }) i ≠ [] ∨
+            0 < itemFbs (hist { s with posted := true, log := Obs.post :: s.log }) i) → i < c.n := by
+          intro i hne
+          by_cases hge : i < c.n
+          · exact hge
+          exfalso
+          have hfr := hL.fresh i
+            (by simp [ids, hrun])
+            (fun r hr0 => by
+              have := (hI.slotIff i).1 ⟨r, hr0⟩
+              omega)
+          rcases hne with hne | hne
+          · exact hne hfr.2.1
+          · rw [hfr.2.2] at hne; omega
         have hev : e ∈ (viewOf { s with posted := true, log := Obs.post :: s.log } items).events := by
           simp only [viewOf, hist]; exact List.mem_reverse.2 he
         cases e with
@@ -849,21 +894,22 @@ theorem c07_viewOf {c : Conc.Cfg} {s s' : BState} (items : List Val) (hr : Reach
           simp only [obsCancels] at hc
           have hd : k ∈ itemDones (hist { s with posted := true, log := Obs.post :: s.log }) i :=
             mem_itemDones.2 (by simpa [viewOf] using hev)
-          have hi : i < c.n := by
-            by_cases hge : i < c.n
-            · exact hge
-            exfalso
-            have hfr := hL.fresh i
-              (by simp [ids, hrun])
-              (fun r hr0 => by
-                have := (hI.slotIff i).1 ⟨r, hr0⟩
-                omega)
-            rw [hfr.2.1] at hd; simp at hd
+          have hi : i < c.n := hin i (.inl (List.ne_nil_of_mem hd))
           obtain ⟨r, hr0⟩ := hall i hi
           have hk := origin_dones_lt (hL.slots i r hr0) k hd
           have := hcf2 i hi k hk
           rw [hc] at this; simp at this
-        | fb i => simp only [obsCancels, hfbc] at hc; simp at hc
+        | fb i =>
+          simp only [obsCancels] at hc
+          have hf : 0 < itemFbs (hist { s with posted := true, log := Obs.post :: s.log }) i :=
+            itemFbs_pos_of_mem (by simpa [viewOf] using hev)
+          have hi : i < c.n := hin i (.inr hf)
+          obtain ⟨r, hr0⟩ := hall i hi
+          have hcust := origin_fb_custom (hL.slots i r hr0) hf
+          rcases hcf3 with hcf3 | hcf3
+          · exact hcf3 hcust
+          · have := hcf3 i hi
+            rw [hc] at this; simp at this
         | start i k => simp [obsCancels] at hc
         | post => simp [obsCancels] at hc
     rw [List.all_eq_true]
